@@ -61,6 +61,18 @@ theorem witness_fixed :
     witnessChain.run htmlTokenize evalStandIn noCodec witnessChunks = witnessBody := by
   decide +kernel
 
+/-- **The other three D4 witnesses are repaired too** (same filter; cut inside a comment `<!-` ‖ `-<p>-->`, inside a CDATA
+section `<![C` ‖ `DATA[<p>]]>`, inside a declaration `<?x` ‖ ` <p>?>`): every run leaves the body unchanged.  The same
+inputs are replayed against the real code from corpus/C03/d4-witnesses.jsonl on every run. -/
+theorem d4_witnesses_fixed :
+    (witnessChain.run htmlTokenize evalStandIn noCodec [[60, 33, 45], [45, 60, 112, 62, 45, 45, 62]] =
+      [60, 33, 45, 45, 60, 112, 62, 45, 45, 62]) ∧
+    (witnessChain.run htmlTokenize evalStandIn noCodec [[60, 33, 91, 67], [68, 65, 84, 65, 91, 60, 112, 62, 93, 93, 62]] =
+      [60, 33, 91, 67, 68, 65, 84, 65, 91, 60, 112, 62, 93, 93, 62]) ∧
+    (witnessChain.run htmlTokenize evalStandIn noCodec [[60, 63, 120], [32, 60, 112, 62, 63, 62]] =
+      [60, 63, 120, 32, 60, 112, 62, 63, 62]) := by
+  decide +kernel
+
 /-! ### text filters: unconditional -/
 
 /-- **Chains of text filters are invariant under chunking**: for arbitrary bytes (no UTF-8 hypothesis), every
